@@ -10,7 +10,7 @@ NS = "NanoVerif.Tensor."
 OBLIGATIONS = [NS + t for t in [
     "index_lt_size", "unindex_index", "index_unindex", "valid_unindex", "index_injective",
     "index_append", "subview_in_bounds", "sub_get", "sub_wf", "slice_get", "slice_wf",
-    "reshape_size", "reshape_wf", "reshape_rejects_negative", "gather_dims",
+    "reshape_size", "reshape_wf", "reshape_rejects_negative", "gather_dims", "gather_get",
 ]]
 TRUSTED = [
     "Lean 4.33.0 kernel (core library only for this property; no Mathlib import)",
